@@ -355,8 +355,8 @@ def thermal_properties_are_sane(self):
     _bump("ThermalProperties.run")
     try:
         tp = self.thermal_properties
-        if tp is None:
-            return True
+        if tp is None or getattr(self, "_classical", False):
+            return True  # classical entropy k(1 - ln(h nu / kT)) is legitimately negative at low T
         T, F, S, Cv = [np.array(x, float) for x in tp[:4]]
         # NaN for h nu / kT > ~709 is listed/decided by C10 itself; here only sign sanity on finite values
         nm = max(1, int(getattr(self, "number_of_modes", 1) or 1))
